@@ -446,14 +446,15 @@ class Gen:
             out.append("%s (*%s)(%s) = %s;" % (f.ret.name, fp, ", ".join(p.t.name for p in f.params), f.name))
             call = "%s(%s)" % (fp, ", ".join(args))
             self.tag("function-pointer")
+        # the call result always goes to a fresh temporary first: the order in
+        # which an lvalue's index expression and the call are evaluated is unspecified
+        v = Var(self.name("c"), f.ret)
+        out.append("%s %s = %s;" % (f.ret.name, v.name, call))
         if r.random() < 0.7:
             lv, t = self.lvalue(sc)
             self.flush(sc, out)
-            out.append("%s = %s;" % (lv, call))
-        else:
-            v = Var(self.name("c"), f.ret)
-            out.append("%s %s = %s;" % (f.ret.name, v.name, call))
-            sc.locals.append(v)
+            out.append("%s = %s;" % (lv, v.name))
+        sc.locals.append(v)
         self.tag("call")
 
     def s_if(self, sc, out, budget, depth):
